@@ -85,15 +85,22 @@ class Lin:
     def __hash__(self):
         return hash(self.key())
 
+    def canon(self):
+        """(canonical shape, sign): the shape with a positive leading coefficient."""
+        sh = self.shape()
+        if sh and sh[0][1] < 0:
+            return tuple((n, -c) for n, c in sh), -1
+        return sh, 1
+
     def interval(self, refine=None):
-        """Interval from symbol bounds; ``refine`` maps shape -> (lo, hi) for the non-constant part."""
-        if refine:
-            r = refine.get(self.shape())
+        """Interval from symbol bounds; ``refine`` maps canonical shape -> (lo, hi) for the non-constant part."""
+        rlo, rhi = -INF, INF
+        if refine and self.terms:
+            sh, sign = self.canon()
+            r = refine.get(sh)
             if r is not None:
-                return (r[0] + self.const, r[1] + self.const)
-            r = refine.get((-self).shape())
-            if r is not None:
-                return (-r[1] + self.const, -r[0] + self.const)
+                rlo, rhi = (r[0], r[1]) if sign > 0 else (-r[1], -r[0])
+                rlo, rhi = rlo + self.const, rhi + self.const
         lo = hi = self.const
         for s, c in self.terms.items():
             slo, shi = s.lo, s.hi
@@ -107,7 +114,7 @@ class Lin:
             # guard inf*0 (cannot happen: c != 0)
             lo += min(a, b)
             hi += max(a, b)
-        return (lo, hi)
+        return (max(lo, rlo), min(hi, rhi))
 
     def __repr__(self):
         parts = []
